@@ -1117,37 +1117,96 @@ fn child_main(arg: &str) -> R<()> {
 
 fn stress(d: &Driver, seed: u64, threads: usize, secs: u64) -> Value {
     use std::sync::atomic::{AtomicBool, AtomicU64, Ordering};
+    use std::sync::Mutex;
     let pool: Arc<Vec<(String, Value)>> = Arc::new(d.recs.iter()
         .filter(|r| r.outcome != "panic" && r.label != "malformed parameters" && !r.label.contains("retried") && !r.label.contains("waits") && r.method != "brc20_initialise")
         .map(|r| (r.method.clone(), r.params.clone())).collect());
     let done = Arc::new(AtomicU64::new(0));
     let panics = Arc::new(AtomicU64::new(0));
     let stop = Arc::new(AtomicBool::new(false));
+    // per worker: the request in flight and since when
+    let inflight: Arc<Vec<Mutex<Option<(String, Instant)>>>> = Arc::new((0..threads).map(|_| Mutex::new(None)).collect());
     let mut rng = crate::rng::Rng::new(seed);
-    for _ in 0..threads {
-        let (pool, done, panics, stop, m) = (pool.clone(), done.clone(), panics.clone(), stop.clone(), d.methods.clone());
+    for w in 0..threads {
+        let (pool, done, panics, stop, m, inflight) = (pool.clone(), done.clone(), panics.clone(), stop.clone(), d.methods.clone(), inflight.clone());
         let mut r = rng.fork();
         std::thread::spawn(move || {
             let rt = new_rt();
             while !stop.load(Ordering::Relaxed) {
-                let (method, params) = r.pick(&pool[..]).clone();
+                // half of the workers alternate between the calls that race most: reads that take the
+                // database lock without naming a block, and calls that finalise blocks
+                let (method, params) = if w % 2 == 1 && r.chance(1, 2) {
+                    let racing: Vec<&(String, Value)> = pool.iter().filter(|(m, _)| m == "brc20_balance" || m == "brc20_mine" || m == "eth_call" || m == "eth_estimateGas").collect();
+                    if racing.is_empty() { r.pick(&pool[..]).clone() } else { (*r.pick(&racing[..])).clone() }
+                } else { r.pick(&pool[..]).clone() };
+                *inflight[w].lock().unwrap() = Some((method.clone(), Instant::now()));
                 let (o, _) = request(&rt, &m, &method, &params);
+                *inflight[w].lock().unwrap() = None;
                 if o == "panic" { panics.fetch_add(1, Ordering::Relaxed); }
                 done.fetch_add(1, Ordering::Relaxed);
             }
         });
     }
     let t0 = Instant::now();
-    let (mut last, mut last_change, mut stalled) = (0u64, Instant::now(), false);
-    while t0.elapsed() < Duration::from_secs(secs) {
+    while t0.elapsed() < Duration::from_secs(secs) { std::thread::sleep(Duration::from_millis(100)); }
+    stop.store(true, Ordering::Relaxed);
+    // every request in flight must come back: a read-only call that meets an open block legitimately
+    // waits up to five seconds; beyond twelve seconds the request is stuck
+    let grace = Instant::now();
+    let mut stuck: Vec<String> = vec![];
+    loop {
+        let busy: Vec<(String, f64)> = inflight.iter().filter_map(|s| s.lock().unwrap().clone()).map(|(m, t)| (m, t.elapsed().as_secs_f64())).collect();
+        if busy.is_empty() { break; }
+        if busy.iter().any(|(_, t)| *t > 12.0) { stuck = busy.iter().filter(|(_, t)| *t > 12.0).map(|(m, t)| format!("{} ({:.0} s)", m, t)).collect(); break; }
+        if grace.elapsed() > Duration::from_secs(20) { stuck = busy.iter().map(|(m, t)| format!("{} ({:.0} s)", m, t)).collect(); break; }
         std::thread::sleep(Duration::from_millis(100));
-        let n = done.load(Ordering::Relaxed);
-        if n != last { last = n; last_change = Instant::now(); }
-        // a read-only call that meets an open block legitimately waits up to five seconds
-        if last_change.elapsed() > Duration::from_secs(12) { stalled = true; break; }
+    }
+    json!({"threads": threads, "seconds": secs, "requests_completed": done.load(Ordering::Relaxed), "panics": panics.load(Ordering::Relaxed), "stalled": !stuck.is_empty(), "stuck_requests": stuck, "pool": pool.len()})
+}
+
+/// A focused race: one thread finalises blocks in a loop while the others keep sending read requests that
+/// take the database lock without naming a block (they read the next height, then wait for the lock: a
+/// block finalised in between sends them down branches a single-threaded drive never takes).
+fn stress_race(d: &Driver, threads: usize, secs: u64) -> Value {
+    use std::sync::atomic::{AtomicBool, AtomicU64, Ordering};
+    use std::sync::Mutex;
+    let rt0 = new_rt();
+    // no open block: drop whatever the mixed stress left behind
+    let _ = request(&rt0, &d.methods, "brc20_clearCaches", &json!([]));
+    let reads: Arc<Vec<(String, Value)>> = Arc::new(d.recs.iter()
+        .filter(|r| r.outcome == "ok" && ((r.method == "brc20_balance") || ((r.method == "eth_call" || r.method == "eth_estimateGas") && r.params.as_array().map(|a| a.len() == 1).unwrap_or(false))))
+        .map(|r| (r.method.clone(), r.params.clone())).collect());
+    if reads.is_empty() { return json!({"skipped": "no block-less read request in the drive"}); }
+    let stop = Arc::new(AtomicBool::new(false));
+    let done = Arc::new(AtomicU64::new(0));
+    let mined = Arc::new(AtomicU64::new(0));
+    let inflight: Arc<Vec<Mutex<Option<(String, Instant)>>>> = Arc::new((0..threads).map(|_| Mutex::new(None)).collect());
+    for w in 0..threads {
+        let (reads, stop, done, mined, m, inflight) = (reads.clone(), stop.clone(), done.clone(), mined.clone(), d.methods.clone(), inflight.clone());
+        std::thread::spawn(move || {
+            let rt = new_rt();
+            let mut i = w;
+            while !stop.load(Ordering::Relaxed) {
+                let (method, params) = if w == 0 { ("brc20_mine".to_string(), json!([1, 1_900_000_000u64])) } else { i += 1; reads[i % reads.len()].clone() };
+                *inflight[w].lock().unwrap() = Some((method.clone(), Instant::now()));
+                let (o, _) = request(&rt, &m, &method, &params);
+                *inflight[w].lock().unwrap() = None;
+                if w == 0 && o == "ok" { mined.fetch_add(1, Ordering::Relaxed); }
+                done.fetch_add(1, Ordering::Relaxed);
+            }
+        });
+    }
+    let t0 = Instant::now();
+    let mut stuck: Vec<String> = vec![];
+    while t0.elapsed() < Duration::from_secs(secs + 14) {
+        std::thread::sleep(Duration::from_millis(100));
+        if t0.elapsed() >= Duration::from_secs(secs) { stop.store(true, Ordering::Relaxed); }
+        let busy: Vec<(String, f64)> = inflight.iter().filter_map(|s| s.lock().unwrap().clone()).map(|(m, t)| (m, t.elapsed().as_secs_f64())).collect();
+        if busy.iter().any(|(_, t)| *t > 12.0) { stuck = busy.iter().filter(|(_, t)| *t > 12.0).map(|(m, t)| format!("{} ({:.0} s)", m, t)).collect(); break; }
+        if stop.load(Ordering::Relaxed) && busy.is_empty() { break; }
     }
     stop.store(true, Ordering::Relaxed);
-    json!({"threads": threads, "seconds": secs, "requests_completed": done.load(Ordering::Relaxed), "panics": panics.load(Ordering::Relaxed), "stalled": stalled, "pool": pool.len()})
+    json!({"threads": threads, "seconds": secs, "requests_completed": done.load(Ordering::Relaxed), "blocks_mined": mined.load(Ordering::Relaxed), "read_requests": reads.len(), "stalled": !stuck.is_empty(), "stuck_requests": stuck})
 }
 
 // =========================================================================================
@@ -1283,9 +1342,13 @@ pub fn run(out: &Path, seed: u64, thorough: bool) -> R<()> {
     let stress_report = if violations.is_empty() {
         let r = if thorough { stress(&d, seed, 8, 30) } else { stress(&d, seed, 4, 3) };
         if r["stalled"].as_bool().unwrap_or(false) {
-            failures.push(json!({"what": "concurrent stress: no request completed for 12 seconds (requests are blocked)", "case": r.clone()}));
+            failures.push(json!({"what": format!("concurrent stress: requests never came back (blocked for more than 12 s): {}", r["stuck_requests"]), "case": r.clone()}));
         }
-        r
+        let r2 = stress_race(&d, 4, if thorough { 10 } else { 2 });
+        if r2["stalled"].as_bool().unwrap_or(false) {
+            failures.push(json!({"what": format!("concurrent stress (one thread finalising blocks, the others reading without a block number): requests never came back (blocked for more than 12 s): {}", r2["stuck_requests"]), "case": r2.clone()}));
+        }
+        json!({"mixed": r, "race": r2})
     } else { json!({"skipped": "undisciplined programs present"}) };
 
     // ---- meta ---------------------------------------------------------------------------------
